@@ -76,10 +76,12 @@ h("fub_stale_many", ["C02", "C05", "C14", "C15"], QT, unwind=66, timeout=1200, c
 W_PUSH = "FuturesUnorderedBounded<Fut>: ONE try_push from an arbitrary INV pre-state (full or not, stale queue entry on the free slot or not)"
 h("fub_push_c2", ["C15", "C02", "C01", "C12", "C14", "C17", "C18"], QT, covers=["cover:push_ok", "cover:push_refused", "cover:push_reuses_stale_entry"],
   what=W_PUSH, bounds="capacity 2")
+h("fub_push_c3", ["C15", "C02", "C01", "C12", "C14", "C17", "C18"], T, covers=["cover:push_ok", "cover:push_refused", "cover:push_reuses_stale_entry"], what=W_PUSH, bounds="capacity 3")
 h("fub_push_c0", ["C15"], QT, covers=["cover:push_refused"], what=W_PUSH, bounds="capacity 0")
 h("fub_push_c2_inflight", ["C01", "C15"], T, covers=["cover:push_ok"], inflight=True, what=W_PUSH + "; enqueues in flight", bounds="capacity 2")
 W_WAKE = ("FuturesUnorderedBounded<Fut>: the environment invokes (wake_by_ref / wake / clone+drop) the waker of an arbitrary slot "
           "(held child, or STALE: vacant slot) in an arbitrary INV pre-state, incl. 'task sleeping after a Pending poll with waker T'")
+h("fub_wake_c3", ["C01", "C12", "C14", "C02", "C18"], T, covers=["cover:wake_notifies", "cover:wake_coalesced", "cover:stale_wake"], what=W_WAKE, bounds="capacity 3")
 h("fub_wake_c2", ["C01", "C12", "C14", "C02", "C18"], QT, covers=["cover:wake_notifies", "cover:wake_coalesced", "cover:stale_wake"], what=W_WAKE, bounds="capacity 2")
 h("fub_wake_c2_inflight", ["C01", "C12", "C14"], QT, covers=["cover:wake_notifies", "cover:stale_wake"], inflight=True,
   what=W_WAKE + "; the two halves of a wake racing on another thread as separate steps", bounds="capacity 2")
@@ -139,6 +141,8 @@ h("fob_poll_c2_p0", ["C04", "C02", "C15", "C17"], QT, unwindset=FOB_US, timeout=
   covers=["cover:yield_running", "cover:none", "cover:pending_parked_more"], what=W_FOB, bounds="capacity 2, no parked output")
 h("fob_poll_c1_p2", ["C04", "C02"], QT, unwindset={"FuturesOrderedBounded.*poll_next#2": 3, POLL: 3, "binary_heap": 4}, timeout=1200,
   covers=["cover:yield_parked", "cover:pending_rebased"], what=W_FOB, bounds="capacity 1, exactly 2 parked outputs (a heap whose order is decided by OrderWrapper::cmp); no self-wake")
+h("fob_poll_c3", ["C04", "C02", "C05", "C15", "C17"], T, unwind=7, unwindset={"FuturesOrderedBounded.*poll_next#2": 4, POLL: 5, "binary_heap": 4}, timeout=3000, mem=30,
+  covers=["cover:yield_parked", "cover:yield_running", "cover:pending_rebased"], what=W_FOB, bounds="capacity 3, exactly 1 parked output; no self-wake")
 h("fob_poll_c2_p2", ["C04", "C02"], T, unwindset={"FuturesOrderedBounded.*poll_next#2": 3, POLL: 5, "binary_heap": 4}, timeout=2400, mem=20,
   covers=["cover:yield_parked"], what=W_FOB, bounds="capacity 2, 2 parked outputs, <=1 self-wake")
 h("fo_observe_c2", ["C04", "C15", "C17", "C12"], QT, covers=["cover:push_front", "cover:push_back"],
@@ -169,6 +173,8 @@ h("mu_push_12", ["C11", "C18", "C08", "C01", "C12"], QT, mem=24, timeout=1500, c
   what="MergeUnbounded<Src>: ONE push (a source added while the merge is being consumed) from an arbitrary two-group pre-state: the last group takes it or a group of twice the capacity is appended; no source is polled, moved or dropped; allocations only for a new group",
   bounds="groups (1,2)")
 h("mu_poll_12_c1", ["C13", "C11", "C01", "C08", "C14"], QT, unwindset=MB_US, timeout=1500, covers=["cover:item_from_other", "cover:pending"], what=W_MU, bounds="groups (1,2); cursor 1")
+h("mb_poll_c3", ["C11", "C05", "C01", "C12", "C06"], T, unwind=7, unwindset={"MergeBounded.*poll_next#0": 5, POLL: 6}, timeout=3000, mem=30, covers=["cover:item", "cover:pending", "cover:none_after_ends"],
+  what="MergeBounded<Src>: ONE poll_next from an arbitrary INV pre-state", bounds="capacity 3; <=1 item; no self-wake")
 h("mb_push_c2", ["C11", "C01", "C12", "C08", "C14", "C18"], QT, covers=["cover:push_ok", "cover:push_refused"],
   what="MergeBounded<Src>: ONE try_push from an arbitrary INV pre-state (full or not): the source is held and marked ready, or handed back untouched; nothing polled, moved, dropped or woken; no allocation",
   bounds="capacity 2")
